@@ -194,6 +194,7 @@ class ObsScenario(NetScenario):
                                            "interfaces.py:ObservableResource._render_to_pipe", {}, key="noreg"))
 
     def change(self, st):
+        st._idx_before = None
         if st.terminal:
             return      # the application has announced the end; it does not trigger again on top of that
         st.res.version += 1
@@ -202,7 +203,10 @@ class ObsScenario(NetScenario):
 
     def end(self, st, r, reason, weak=False):
         if r.ended is None:
-            r.ended = (reason, st.world.loop.time(), len(st.world.sent), weak)
+            # what counts as "sent after the end" is measured from before the ending event was processed: a notification
+            # released by that very event (for example out of the NSTART backlog) is already one too many
+            idx = getattr(st, "_idx_before", None)
+            r.ended = (reason, st.world.loop.time(), len(st.world.sent) if idx is None else idx, weak)
 
     # -- fault menu
     def faults(self, st):
@@ -223,8 +227,15 @@ class ObsScenario(NetScenario):
             out.append(("shutdown", 1))
         return out
 
+    def before_deliver(self, st, dg):
+        st._idx_before = len(st.world.sent)
+
+    def before_timer(self, st):
+        st._idx_before = None
+
     def apply_fault(self, st, label):
         w = st.world
+        st._idx_before = len(w.sent)
         kind, _, nm = label.partition(":")
         obs = {"O1": st.o1, "O2": st.o2}.get(nm)
         st.used.add((kind, nm) if nm else kind)
@@ -254,7 +265,7 @@ class ObsScenario(NetScenario):
             for r in live:
                 self.end(st, r, "unsuccessful notification", weak=True)
         elif kind == "trigger-last":
-            st.terminal = True
+            # (a "last" mark is sticky: plain triggers that follow and get coalesced with it do not undo it)
             live = self.live(st)
             for o in list(st.res._observations):
                 o.trigger(None, is_last=True)
